@@ -183,6 +183,7 @@ type loopInfo struct {
 	modFam   map[string]bool // heap family prefixes stored to ("*" = everything)
 	modObj   map[*ssa.Alloc]bool // object allocs (declared outside the loop) written in the loop
 	modGhost map[string]bool
+	modTrace map[string]bool // traced callees called inside the loop
 	calls    bool
 	headState *State
 	variant  CVal
@@ -338,6 +339,22 @@ func (fx *FnExec) analyseLoop(fr *frame, li *loopInfo) {
 				li.modFam["MV|"+mapTypeKey(x.Map.Type())+"|"] = true
 			case *ssa.Call:
 				fx.callEffects(fr, x.Common(), li, addrEffect)
+				// call-trace ghosts of traced callees change in the loop
+				cc := x.Common()
+				k := ""
+				if cc.IsInvoke() {
+					k = ifaceMethodKey(cc.Value.Type(), cc.Method.Name())
+				} else if callee := cc.StaticCallee(); callee != nil {
+					k = funcKey(callee)
+				} else {
+					k = globalFuncKey(cc)
+				}
+				if k != "" && fx.eng.traced[k] {
+					if li.modTrace == nil {
+						li.modTrace = map[string]bool{}
+					}
+					li.modTrace[k] = true
+				}
 			case *ssa.Defer:
 				li.modFam["*"] = true
 			case *ssa.Go:
